@@ -122,7 +122,7 @@ func (g *c08Gen) metadata() *rlwe.MetaData {
 	return &rlwe.MetaData{
 		PlaintextMetaData: rlwe.PlaintextMetaData{
 			Scale:         g.scale(),
-			LogDimensions: ring.Dimensions{Rows: g.ch.Draw("md-rows", 3), Cols: g.ch.Draw("md-cols", 12)},
+			LogDimensions: ring.Dimensions{Rows: g.ch.Draw("md-rows", 5) - 2, Cols: g.ch.Draw("md-cols", 15) - 3}, // negative values are legal (a split of a single-slot ciphertext leaves -1)
 			IsBatched:     g.ch.Bool("md-batched"),
 			IsBitReversed: g.ch.Bool("md-bitrev"),
 		},
@@ -478,14 +478,20 @@ func c08Catalog() []c08Entry {
 			if g.ch.Chance("ring-custom-root", 1, 4) {
 				// a ring over a root of unity of higher order than 2N (as parameter sets with LogNthRoot request),
 				// up to 2^12 * N
+				// (the primes support the highest order, so that rings over the same moduli and degree differ in
+				// their root or in their type only - what a receiver that is reused must not keep)
 				N := 16
 				nth := N << uint(1+g.ch.Draw("ring-root-extra", 12))
-				gen := ring.NewNTTFriendlyPrimesGenerator(40, uint64(nth))
-				ps, err := gen.NextAlternatingPrimes(1 + g.ch.Draw("ring-root-moduli", 3))
+				gen := ring.NewNTTFriendlyPrimesGenerator(40, uint64(N<<12))
+				ps, err := gen.NextAlternatingPrimes(1 + g.ch.Draw("ring-root-moduli", 2))
 				if err != nil {
 					g.ctx.Harness("primes: %v", err)
 				}
-				if r, err = ring.NewRingWithCustomNTT(N, ps, ring.NewNumberTheoreticTransformerStandard, nth); err != nil {
+				if g.ch.Chance("ring-conjugate-invariant", 1, 4) {
+					if r, err = ring.NewRingFromType(N, ps, ring.ConjugateInvariant); err != nil {
+						g.ctx.Harness("conjugate-invariant ring: %v", err)
+					}
+				} else if r, err = ring.NewRingWithCustomNTT(N, ps, ring.NewNumberTheoreticTransformerStandard, nth); err != nil {
 					g.ctx.Harness("ring with custom root: %v", err)
 				}
 				g.ctx.Count("probe.ring-with-root-of-higher-order", 1)
